@@ -55,8 +55,18 @@ fn range_bits(lo: Option<i64>, hi: Option<i64>) -> Bits {
     if hi.is_none() {
         b |= 1 << (NPTS - 1);
     }
-    let l = lo.unwrap_or(LOW);
-    let h = hi.unwrap_or(HIGH);
+    // emitted bounds outside the universe (possible only when the compiler resolves a name to a foreign number) fall on
+    // the sentinels
+    let mut l = lo.unwrap_or(LOW);
+    let mut h = hi.unwrap_or(HIGH);
+    if l < LOW {
+        b |= 1;
+        l = LOW;
+    }
+    if h > HIGH {
+        b |= 1 << (NPTS - 1);
+        h = HIGH;
+    }
     let mut v = l;
     while v <= h {
         b |= 1 << bit_of(v);
@@ -370,6 +380,9 @@ pub fn text(c: &Case) -> String {
         }
         "named" | "named-lo" | "named-hi" => {
             let nn: Vec<String> = finite_points(c).iter().map(|v| format!("{}({})", name_of(*v, "n"), v)).collect();
+            // other types of the module define the same names with other numbers (sorting before and after D)
+            let decoy = |off: i64| finite_points(c).iter().map(|v| format!("{}({})", name_of(*v, "n"), v + off)).collect::<Vec<_>>().join(", ");
+            body += &format!("Aa0 ::= INTEGER {{ {} }}\nZz0 ::= INTEGER {{ {} }}\n", decoy(100), decoy(-100));
             body += &format!("D ::= INTEGER {{ {} }}\nA ::= D {}", nn.join(", "), all);
         }
         "namedself" => {
